@@ -74,7 +74,8 @@ def shut(index, rep):
                     return Obj(None, dict(kwargs), "food")
                 if dn in ("np.array", "np.asarray") and len(args) == 1:
                     return args[0]
-                return NotImplemented
+                from .nphooks import np_hook
+                return np_hook(interp, dn, args, kwargs, node)
 
             it.call_hook = hook
             obj = Obj(cls, {"NMONTHS": Rat.atom(NSYM), per_year: Obj(None, {
@@ -86,6 +87,30 @@ def shut(index, rep):
         except Unsupported as e:
             raise AnalysisError(f"{meth} outside the analysed fragment: {e}")
         n = 0
+        # written over whole arrays ((np.arange(NMONTHS) < duration) x monthly use): every path describes the generic entry i of one run of
+        # NMONTHS entries under the conditions it met; compared piece by piece with  use for i < duration, 0 from the shut-off month on
+        from .symx import NArr as _NArr, EIDX as _EIDX, constraints_of as _cons_of
+        from .rat import piecewise_mismatch as _pwm
+        generic = {l_: [] for l_ in ("kcals", "fat", "protein")}
+        live = [x for x in envs if not isinstance(x[2], Abort)]
+        if live and all(isinstance(x[2], Obj) and all(isinstance(x[2].attrs.get(l_), _NArr) and len(x[2].attrs[l_].segs) == 1
+                                                       and x[3].to_rat(x[2].attrs[l_].segs[0][1]) == Rat.atom(NSYM) for l_ in generic) for x in live):
+            for _, dec, res, it in live:
+                for l_ in generic:
+                    generic[l_].append((_cons_of(it, dec), it.to_rat(res.attrs[l_].segs[0][0])))
+            for lane in generic:
+                want = Fraction(4 * 10**6, 12 * 10**9) if lane == "kcals" else Fraction(1, 12 * 1000)
+                use = Rat.atom(("yr", lane)) * Rat.const(want)
+                # months are whole numbers: in use up to and including duration - 1, zero from month `duration` on (the step at the shut-off is
+                # stated by two pieces that do not touch)
+                why = _pwm(generic[lane], [(None, d - Rat.const(1), use), (d, None, Rat.const(0))], _EIDX, extra=[(Rat.atom(_EIDX), ">="), (d, ">=")])
+                rep.check(why is None, rule, f"{meth}:{lane}", f"entry i of the series is not yearly demand x {want} for i < duration and 0 from the "
+                          f"shut-off month on: {why}", loc=loc(FAB, fn))
+            res0 = live[0][2]
+            labs = [res0.attrs.get(k) for k in ("kcals_units", "fat_units", "protein_units")]
+            rep.check(labs == ["billion kcals each month", "thousand tons each month", "thousand tons each month"], rule,
+                      f"{meth}:units", f"demand is labelled {labs}", loc=loc(FAB, fn))
+            continue
         for _, dec, res, it in envs:
             if isinstance(res, Abort):
                 continue
